@@ -311,7 +311,183 @@ def _replay(r):
         return dict(confirmed=False, detail='the solver gave no model')
     if fn in ('fast_fitting_predicate', 'smart_fitting_predicate'):
         return replay_predicate(fn, model)
+    if r.get('family') == 'printers':
+        return replay_printers(fn, model)
     if r.get('family') == 'config':
         full = r.get('function') or ''
         return replay_config(full if full in _CONFIG_CHECKS else fn, model)
+    return dict(confirmed=False, detail='no direct replay for %s: the failing input is searched by the bounded stand-in' % fn)
+
+
+# ---- family printers: the counter-model is turned into real values; the statement is checked on what the real printer returns ----
+class _SubList(list):
+    pass
+
+
+class _SubTuple(tuple):
+    pass
+
+
+class _SubSet(set):
+    pass
+
+
+class _SubFloat(float):
+    pass
+
+
+class _SubInt(int):
+    pass
+
+
+def _render_doc(doc):
+    from prettyprinter.layout import layout_smart
+    from prettyprinter.render import default_render_to_str
+    return default_render_to_str(layout_smart(doc, width=79, ribbon_frac=1.0))
+
+
+def _code_and_comments(text):
+    import io
+    import tokenize
+    comments = []
+    code = []
+    for tok in tokenize.generate_tokens(io.StringIO('(' + text + '\n)').readline):
+        if tok.type == tokenize.COMMENT:
+            comments.append(tok.string)
+    for line in ('(' + text + '\n)').splitlines():
+        code.append(line)
+    return '\n'.join(code), comments
+
+
+def _check_container(P, kind, native, n, N, depth_left, tc):
+    """one real call of pretty_bracketable_iterable; returns None or (observed, required)"""
+    import re
+    base = {'list': list, 'tuple': tuple, 'set': set}[kind]
+    cls = base if native else {'list': _SubList, 'tuple': _SubTuple, 'set': _SubSet}[kind]
+    items = list(range(100, 100 + n))
+    value = cls(items)
+    ctx = P.PrettyContext(indent=4, depth_left=depth_left, max_seq_len=N)
+    doc = P.pretty_bracketable_iterable(value, ctx, trailing_comment=tc)
+    text = _render_doc(doc)
+    src, comments = _code_and_comments(text)
+    shown = n if N is None else min(n, N)
+    ns = {'native_SubList': _SubList, 'native_SubTuple': _SubTuple, 'native_SubSet': _SubSet}
+    src2 = re.sub(r'pvf\.native\._Sub(List|Tuple|Set)', r'native_Sub\1', src)
+    if n > 0 and depth_left == 0:
+        if any(str(i) in src2 for i in items) or '...' not in src2:
+            return (text[:200], 'the placeholder of the container (depth exhausted): no element is printed')
+        if not native and ('_Sub' not in src2):
+            return (text[:200], 'the placeholder names the subclass')
+        return None
+    notices = [c for c in comments if 'more elements' in c]
+    want_notice = N is not None and n > N
+    if want_notice != (len(notices) == 1) or (not want_notice and notices):
+        return ('%d truncation notices %r' % (len(notices), notices[:2]), 'exactly one notice iff len > N (len=%d, N=%r)' % (n, N))
+    if want_notice and not re.search(r'(?<!\d)%d(?!\d)' % (n - N), notices[0]):
+        return ('notice %r' % notices[0], 'the notice states exactly len - N = %d' % (n - N))
+    if tc is not None and tc and not (n > 0 and depth_left == 0) and not any(tc in c for c in comments):
+        return ('comments %r' % comments[:3], 'the attached trailing comment %r is kept' % tc)
+    if n == 0 and depth_left == 0:
+        return None          # an empty set / subclass instance at the cut: the call placeholder Sub(...) is the placeholder of its type
+    if n > 0 and depth_left == 1:
+        k = len(re.findall(r'int\(\.\.\.\)', src2))
+        if k != shown:
+            return ('%d element placeholders' % k, '%d elements one level deeper (each at the depth cut)' % shown)
+        return None
+    try:
+        got = eval(src2, dict(ns))
+    except Exception as e:      # noqa
+        return ('%r does not evaluate: %r' % (text[:200], e), 'a valid expression')
+    it = items if kind != 'set' else list(value)
+    want = cls(it[:shown]) if kind != 'set' else None
+    if kind == 'set':
+        ok = type(got) is cls and len(got) == shown and set(got) <= set(value)
+        if ok and N is not None and n > N:
+            import itertools
+            ok = set(got) == set(itertools.islice(value, N))
+    else:
+        ok = type(got) is cls and got == want
+    if not ok:
+        return ('evaluates to %r of type %s' % (got if len(repr(got)) < 200 else repr(got)[:200], type(got).__name__),
+                'the first min(len, N) = %d elements as a %s' % (shown, cls.__name__))
+    return None
+
+
+def replay_printers(fn, model):
+    import importlib
+    import math
+    import warnings
+    warnings.simplefilter('ignore')
+    common.load_repo()          # the tree under check, not an installed copy
+    P = importlib.import_module('prettyprinter.prettyprinter')
+    funcs = model.get('@funcs', {})
+
+    def fdefault(name, dflt):
+        v = funcs.get(name, {}).get('default', dflt)
+        return v if isinstance(v, (int, bool)) else dflt
+    if fn == 'pretty_bracketable_iterable':
+        ctx = model.get('ctx')
+        mN, mdepth = None, 5
+        if isinstance(ctx, list) and len(ctx) >= 6:
+            mdepth = ctx[2] if isinstance(ctx[2], int) else 5
+            if isinstance(ctx[4], list) and ctx[4][0] == 'SomeInt' and isinstance(ctx[4][1], int):
+                mN = ctx[4][1]
+        mn = fdefault('vlen', 3)
+        if mN is not None and not (1 <= mN <= 500):
+            mN = 2 + (abs(mN) % 5)
+        if not (0 <= mn <= 600):
+            mn = (mN or 3) + 1 + (abs(mn) % 7)
+        mdepth = 0 if mdepth == 0 else (1 if mdepth == 1 else 5)
+        kind = 'list' if fdefault('is_list', False) else ('tuple' if fdefault('is_tuple', True) else 'set')
+        tcm = model.get('trailing_comment')
+        tc0 = 'note' if (isinstance(tcm, list) and tcm and tcm[0] == 'SomeStr') else None
+        cases = [(kind, nat, mn, mN, mdepth, tc0) for nat in (True, False)]
+        for k in (kind, 'list', 'tuple', 'set'):
+            for nat in (True, False):
+                for N in (mN, None, 1, 2, 7):
+                    for n in sorted({0, 1, 2, 3, mn, (N or 0) + 1, (N or 0) + 2, (N or 0) + 5}):
+                        for d in (mdepth, 0, 1, 5):
+                            for tc in (tc0, None, 'note'):
+                                cases.append((k, nat, n, N, d, tc))
+        seen = set()
+        for case in cases:
+            if case in seen:
+                continue
+            seen.add(case)
+            k, nat, n, N, d, tc = case
+            try:
+                bad = _check_container(P, k, nat, n, N, d, tc)
+            except Exception as e:      # noqa
+                bad = ('raised %r' % e, 'the printer returns a document')
+            if bad:
+                inp = 'pretty_bracketable_iterable(%s of %d ints%s, PrettyContext(indent=4, depth_left=%d, max_seq_len=%r), trailing_comment=%r)' % (
+                    k, n, '' if nat else ' (subclass)', d, N, tc)
+                return dict(confirmed=True, input=inp, observed=bad[0], required=bad[1],
+                            detail='%s: observed %s; the statement requires %s (%d real calls tried, the first is the counter-model)' % (
+                                inp, bad[0], bad[1], len(seen)))
+        return dict(confirmed=False, detail='the real printer satisfies the statement on the counter-model and on %d neighbouring inputs' % len(seen))
+    if fn in ('pretty_float', 'pretty_int', 'pretty_bool'):
+        import prettyprinter
+        vals = {'pretty_float': [float('inf'), float('-inf'), float('nan'), 1.5, -0.0, _SubFloat('inf'), _SubFloat('nan'), _SubFloat(2.5)],
+                'pretty_int': [0, -7, 10 ** 30, _SubInt(5)], 'pretty_bool': [True, False]}[fn]
+        for v in vals:
+            for depth in ((None, 0, 5) if fn != 'pretty_bool' else (None, 5)):
+                try:
+                    text = prettyprinter.pformat([v], depth=depth) if depth != 0 else prettyprinter.pformat(v, depth=0)
+                    if depth == 0:
+                        ok = '...' in text
+                        req = 'a placeholder at depth 0'
+                    else:
+                        src = text.replace('pvf.native._Sub', '_Sub')
+                        got = eval(src, {'_SubFloat': _SubFloat, '_SubInt': _SubInt, 'float': float, 'int': int})[0]
+                        ok = type(got) is type(v) and (got == v or (isinstance(v, float) and math.isnan(v) and math.isnan(got))) \
+                            and (not isinstance(v, float) or math.copysign(1, got) == math.copysign(1, v) or math.isnan(v))
+                        req = 'evaluates to an equal value of the same type'
+                except Exception as e:      # noqa
+                    ok, text, req = False, 'raised %r' % e, 'a valid expression'
+                if not ok:
+                    inp = 'pformat(%r of type %s, depth=%r)' % (v, type(v).__name__, depth)
+                    return dict(confirmed=True, input=inp, observed=text[:200], required=req,
+                                detail='%s printed %r; the statement requires: %s' % (inp, text[:200], req))
+        return dict(confirmed=False, detail='the real printer satisfies the statement on the representative values tried')
     return dict(confirmed=False, detail='no direct replay for %s: the failing input is searched by the bounded stand-in' % fn)
